@@ -10,7 +10,7 @@
        agreeb top (griffe_sched top ms order) (py_import ms order) = true
    for all programs that satisfy the decidable side conditions wf_prog / wf_run is C05_composition below. *)
 From Coq Require Import List ZArith String Bool Arith.
-From Verif Require Import Lib.Sexp Model.C05_imports Model.C05_wf Proofs.C05_imports Proofs.C05_resolve Proofs.C05_main Proofs.C05_real Proofs.C05_realw Gen.C05_ladder Proofs.C05_ladder.
+From Verif Require Import Lib.Sexp Model.C05_imports Model.C05_wf Proofs.C05_imports Proofs.C05_resolve Proofs.C05_main Proofs.C05_real Proofs.C05_realw Proofs.C05_norefs Gen.C05_ladder Proofs.C05_ladder.
 Import ListNotations.
 Open Scope string_scope. Open Scope list_scope. Open Scope nat_scope.
 
@@ -284,7 +284,7 @@ Theorem C05_real_exports_phase_is_a_schedule :
   forall fuel top mp s s',
   expx fuel top mp s = Done s' -> ~ In mp (xseen s) ->
   exists order, xt s' = fold_left (sched_exports_step (S (List.length (xt s) * 8 + 64)) top) order (xt s) /\
-                (forall m, In m order -> ~ In m (xseen s)) /\ In mp (xseen s').
+                (forall m, In m order -> ~ In m (xseen s)) /\ In mp (xseen s') /\ xdone s' = rev order ++ xdone s.
 Proof. exact expx_is_a_schedule. Qed.
 Print Assumptions C05_real_exports_phase_is_a_schedule.
 
@@ -294,7 +294,7 @@ Print Assumptions C05_real_exports_phase_is_a_schedule.
 Theorem C05_real_wildcard_phase_is_a_schedule :
   forall fuel top mp s s',
   expw fuel top mp s = Done s' -> ~ In mp (wseen s) -> keys_ok (wt s) ->
-  exists order, (forall m, In m order -> ~ In m (wseen s)) /\
+  exists order, (forall m, In m order -> ~ In m (wseen s)) /\ wdone s' = rev order ++ wdone s /\
                 (ok_run (S (List.length (wt s) * 8 + 64)) top order (wt s) ->
                  wt s' = fold_left (sched_wild_step (S (List.length (wt s) * 8 + 64)) top) order (wt s)).
 Proof. exact expw_is_a_schedule. Qed.
@@ -310,6 +310,19 @@ Theorem C05_load_is_two_schedules :
 Proof. exact load_is_two_schedules. Qed.
 Print Assumptions C05_load_is_two_schedules.
 
+(* the same with the orders made explicit (the modules in the order in which each phase marks them done) and the side condition
+   as the boolean the extracted model evaluates on every generated package *)
+Theorem C05_load_phases_explicit :
+  forall top ms x w,
+  expx (total_fuel ms) top [top] (mkX (initial_table ms) [] false [] [] [] []) = Done x ->
+  expw (total_fuel ms) top [top] (mkW (xt x) [] [] [] (xunsup x) [] []) = Done w ->
+  let fl := S (List.length ms * 8 + 64) in
+  let tx := fold_left (sched_exports_step fl top) (rev (xdone x)) (initial_table ms) in
+  xt x = tx /\
+  (ok_runb fl top (rev (wdone w)) tx = true -> wt w = fold_left (sched_wild_step fl top) (rev (wdone w)) tx).
+Proof. exact load_phases_decidable. Qed.
+Print Assumptions C05_load_phases_explicit.
+
 Theorem C05_load_is_two_schedules_not_vacuous :
   let fl := S (List.length w13 * 8 + 64) in
   let tx := fold_left (sched_exports_step fl "q") ox13 (initial_table w13) in
@@ -317,6 +330,35 @@ Theorem C05_load_is_two_schedules_not_vacuous :
   exists l, griffe_load "q" w13 = Done l /\ l_table l = fold_left (sched_wild_step fl "q") ow13 tx.
 Proof. exact load_two_schedules_not_vacuous. Qed.
 Print Assumptions C05_load_is_two_schedules_not_vacuous.
+
+(* ---- the real traversal against CPython, end to end, for a decidable sub-class ------------------------------------------------------ *)
+(* No schedule is assumed.  For programs whose __all__ statements list strings only, if the order o in which the wildcard phase of
+   griffe_load completes the modules is an order for which the hypotheses of C05_composition hold (CPython can import the modules in
+   that order) and every wildcard import names a module (ok_runb), the table griffe_load itself produces agrees with CPython.  Every
+   hypothesis is decidable and evaluated by the extracted model on every generated package. *)
+Theorem C05_real_traversal_agrees :
+  forall top ms l pt,
+  griffe_load top ms = Done l ->
+  no_refsb ms = true ->
+  let o := load_wild_order top ms in
+  ok_runb (S (List.length ms * 8 + 64)) top o (initial_table ms) = true ->
+  wf_prog top ms o = true ->
+  py_import ms o [] = POk pt ->
+  wf_run ms pt = true ->
+  agreeb top (l_table l) pt = true.
+Proof. exact real_traversal_agrees. Qed.
+Print Assumptions C05_real_traversal_agrees.
+
+Theorem C05_real_traversal_agrees_not_vacuous :
+  exists l pt,
+    griffe_load "r" w14 = Done l /\ no_refsb w14 = true /\
+    load_wild_order "r" w14 = [["r"; "a"]; ["r"; "b"]; ["r"]] /\
+    ok_runb (S (List.length w14 * 8 + 64)) "r" (load_wild_order "r" w14) (initial_table w14) = true /\
+    wf_prog "r" w14 (load_wild_order "r" w14) = true /\
+    py_import w14 (load_wild_order "r" w14) [] = POk pt /\ wf_run w14 pt = true /\
+    agreeb "r" (l_table l) pt = true.
+Proof. exact real_traversal_theorem_not_vacuous. Qed.
+Print Assumptions C05_real_traversal_agrees_not_vacuous.
 
 (* ---- the model against definitions regenerated from the source on every run (Gen/C05_ladder.v) -------------------------------------- *)
 Theorem C05_wildcard_exposed_is_generated :
